@@ -5,7 +5,6 @@
 use super::misc::{policy_table, schema_table, template_table, SchemaIn};
 use super::{api_env, api_pset, atom_tuples, canon_api, context_js, entities_js, requests, schema_w_json, Ans, Atom, Plan, SchemaKind, Src, Vr, SCHEMA_W_CEDAR};
 use crate::harness::*;
-use crate::world::*;
 use rayon::prelude::*;
 use refsem::print::Style;
 use refsem::*;
@@ -290,7 +289,7 @@ pub fn check_case(bin: &Path, c: &CliCase, dir: &Path, l: &mut Local) -> Result<
             args.extend(pargs);
             args.extend(schema_args(*schema, dir)?);
             args.push("--entities".into());
-            args.push(write(dir, "entities.json", &entities_js(&store1(), *implicit).to_string())?);
+            args.push(write(dir, "entities.json", &entities_js(&super::store_for(*req), *implicit).to_string())?);
             if *request_json {
                 let doc = json!({"principal": uid_text(&r.principal), "action": uid_text(&r.action), "resource": uid_text(&r.resource), "context": context_js(&r.context, *implicit)});
                 args.push("--request-json".into());
@@ -337,7 +336,7 @@ pub fn check_case(bin: &Path, c: &CliCase, dir: &Path, l: &mut Local) -> Result<
                 }
             }
             args.push("--entities".into());
-            args.push(write(dir, "entities.json", &entities_js(&store1(), false).to_string())?);
+            args.push(write(dir, "entities.json", &entities_js(&super::store_for(*req), false).to_string())?);
             args.extend(["--principal".into(), uid_text(&r.principal), "--action".into(), uid_text(&r.action), "--resource".into(), uid_text(&r.resource)]);
             args.push("--context".into());
             args.push(write(dir, "context.json", &context_js(&r.context, false).to_string())?);
@@ -631,7 +630,7 @@ pub fn cases(tier: Tier) -> Vec<CliCase> {
             vr: vrs[(k / 9) % 3],
             implicit: schema != SchemaKind::None && k % 2 == 1,
             // every other case asks the request the atoms are written for
-            req: [0, 1, 0, 2, 0, 3, 0, 4, 0, 5][k % 10] % nreq,
+            req: [0, 1, 0, 2, 0, 3, 0, 4, 6, 5][k % 10] % nreq,
             request_json: (k / 2) % 2 == 1,
         });
     }
